@@ -118,6 +118,10 @@ type Prog struct {
 	Stages    []*StageDef
 	Pipelines []*PipelineDef
 	Top       *CallDef // call of the last pipeline with literal arguments
+	// OutNames / Helps: explicit output file names and help texts of out parameters
+	// and struct fields, keyed "OWNER.param" (OWNER = stage, pipeline or struct name)
+	OutNames map[string]string
+	Helps    map[string]string
 }
 
 func (p *Prog) Stage(name string) *StageDef {
@@ -324,10 +328,26 @@ func (p *Prog) renderExpr(b *strings.Builder, e *Expr) {
 	}
 }
 
-func renderParams(b *strings.Builder, kind string, fs []Field) {
+func (p *Prog) renderParams(b *strings.Builder, kind, owner string, fs []Field) {
 	for _, f := range fs {
-		fmt.Fprintf(b, "    %s %s %s,\n", kind, f.T.String(), f.Name)
+		fmt.Fprintf(b, "    %s %s %s%s,\n", kind, f.T.String(), f.Name, p.helpAndOutName(owner, f.Name))
 	}
+}
+
+// helpAndOutName renders the optional help text and output file name of an out
+// parameter or struct field.
+func (p *Prog) helpAndOutName(owner, name string) string {
+	key := owner + "." + name
+	help, hasHelp := p.Helps[key]
+	out, hasOut := p.OutNames[key]
+	if !hasHelp && !hasOut {
+		return ""
+	}
+	s := " " + mroString(help)
+	if hasOut {
+		s += " " + mroString(out)
+	}
+	return s
 }
 
 func (p *Prog) renderCall(b *strings.Builder, c *CallDef, indent string, top bool) {
@@ -385,20 +405,20 @@ func (p *Prog) Render() (decls string, call string) {
 	for _, s := range p.Structs {
 		fmt.Fprintf(&b, "struct %s(\n", s.Name)
 		for _, f := range s.Fields {
-			fmt.Fprintf(&b, "    %s %s,\n", f.T.String(), f.Name)
+			fmt.Fprintf(&b, "    %s %s%s,\n", f.T.String(), f.Name, p.helpAndOutName(s.Name, f.Name))
 		}
 		b.WriteString(")\n\n")
 	}
 	for _, s := range p.Stages {
 		fmt.Fprintf(&b, "stage %s(\n", s.Name)
-		renderParams(&b, "in ", s.Ins)
-		renderParams(&b, "out", s.Outs)
+		p.renderParams(&b, "in ", "", s.Ins)
+		p.renderParams(&b, "out", s.Name, s.Outs)
 		fmt.Fprintf(&b, "    src %s %s,\n", s.SrcKind, mroString("stagebin "+s.Name))
 		b.WriteString(")")
 		if s.Split {
 			b.WriteString(" split (\n")
-			renderParams(&b, "in ", s.ChunkIns)
-			renderParams(&b, "out", s.ChunkOuts)
+			p.renderParams(&b, "in ", "", s.ChunkIns)
+			p.renderParams(&b, "out", "", s.ChunkOuts)
 			b.WriteString(")")
 		}
 		var res []string
@@ -429,8 +449,8 @@ func (p *Prog) Render() (decls string, call string) {
 	}
 	for _, pl := range p.Pipelines {
 		fmt.Fprintf(&b, "pipeline %s(\n", pl.Name)
-		renderParams(&b, "in ", pl.Ins)
-		renderParams(&b, "out", pl.Outs)
+		p.renderParams(&b, "in ", "", pl.Ins)
+		p.renderParams(&b, "out", pl.Name, pl.Outs)
 		b.WriteString(")\n{\n")
 		for _, c := range pl.Calls {
 			p.renderCall(&b, c, "    ", false)
